@@ -258,6 +258,18 @@ def config_read(ctx) -> None:
     ctx.check(ret is not None and core.src(ret.value) == f"Bank.Path(f'{{self.value}}.{{{sfx}}}', explicit=False)", 'C20.read', td, 'a path derived for an alias lookup is never explicit (a miss there falls through to the other search paths)', ret or td.node, key='Path.__truediv__')
 
 
+def qualifier_path(ctx) -> None:
+    """A ``module:Class`` reference is looked for in *its module*: ``Qualifier.paths`` offers the single path ``Bank.Path(self.module,
+    explicit=False)``; an alias is looked for below the base paths (``base / self``).  Any other field there (the qualname)
+    names no importable module - the provider is found only if something else imported it first."""
+    prog = ctx.prog
+    q = prog.func('forml.provider:Qualifier.paths')
+    calls_ = [c for c in core.calls_in(q.node) if core.src(c.func) == 'Bank.Path']
+    ctx.check(len(calls_) == 1 and core.src(calls_[0].args[0]) == 'self.module' and any(k.arg == 'explicit' and core.is_const(k.value, False) for k in calls_[0].keywords), 'C20.references', q, 'Qualifier.paths -> (Bank.Path(self.module, explicit=False),)', calls_[0] if calls_ else q.node, key='qualifier:module')
+    a = prog.func('forml.provider:Alias.paths')
+    ctx.check('b / self for b in base' in core.src(a.node), 'C20.references', a, 'Alias.paths -> base / alias for every base path', a.node, key='alias:base')
+
+
 def references(ctx) -> None:
     """A provider class is referenced by exactly what identifies it: (module, *qualified* name) - the same two attributes the
     class hash is made of - so that inner/local classes are told apart and a class registered under its own reference is found
@@ -279,6 +291,7 @@ def references(ctx) -> None:
 
 
 def run(ctx) -> None:
+    qualifier_path(ctx)
     from . import C08
     references(ctx)
     config_read(ctx)
